@@ -291,23 +291,27 @@ func (sc *c20Scenario) runPure(s *simrt.Sim, h *Hist) {
 		}
 		// MakeVariadicReturnN passes all arguments and returns the N results in order
 		var gr []string
+		var ad func(...string) []string
 		j := func(a []string) string { return strings.Join(a, "+") }
 		switch p.Arity {
 		case 1:
-			gr = fpgo.MakeVariadicReturn1(func(a ...string) string { return j(a) })(args...)
+			ad = fpgo.MakeVariadicReturn1(func(a ...string) string { return j(a) })
 		case 2:
-			gr = fpgo.MakeVariadicReturn2(func(a ...string) (string, string) { return j(a), "2" })(args...)
+			ad = fpgo.MakeVariadicReturn2(func(a ...string) (string, string) { return j(a), "2" })
 		case 3:
-			gr = fpgo.MakeVariadicReturn3(func(a ...string) (string, string, string) { return j(a), "2", "3" })(args...)
+			ad = fpgo.MakeVariadicReturn3(func(a ...string) (string, string, string) { return j(a), "2", "3" })
 		case 4:
-			gr = fpgo.MakeVariadicReturn4(func(a ...string) (string, string, string, string) { return j(a), "2", "3", "4" })(args...)
+			ad = fpgo.MakeVariadicReturn4(func(a ...string) (string, string, string, string) { return j(a), "2", "3", "4" })
 		case 5:
-			gr = fpgo.MakeVariadicReturn5(func(a ...string) (string, string, string, string, string) { return j(a), "2", "3", "4", "5" })(args...)
+			ad = fpgo.MakeVariadicReturn5(func(a ...string) (string, string, string, string, string) { return j(a), "2", "3", "4", "5" })
 		case 6:
-			gr = fpgo.MakeVariadicReturn6(func(a ...string) (string, string, string, string, string, string) {
+			ad = fpgo.MakeVariadicReturn6(func(a ...string) (string, string, string, string, string, string) {
 				return j(a), "2", "3", "4", "5", "6"
-			})(args...)
+			})
 		}
+		// (one adapter, called twice: what the first call returned is the caller's and does not change with the second)
+		gr = ad(args...)
+		ad("zz", "yy")
 		wr := []string{j(args), "2", "3", "4", "5", "6"}[:p.Arity]
 		if fmt.Sprint(gr) != fmt.Sprint(wr) {
 			bad("adapters", fmt.Sprintf("MakeVariadicReturn%d", p.Arity), fmt.Sprintf("got %v, want %v", gr, wr))
